@@ -27,7 +27,7 @@ func (p *Prog) unboxArms(f *ssa.Function) (map[string]*ssa.Function, ssa.CallIns
 	unbox := p.fn("klog", "Unbox")
 	var call ssa.CallInstruction
 	n := 0
-	for _, g := range []*ssa.Function{f} {
+	for _, g := range append([]*ssa.Function{f}, helpersCalledFrom([]*ssa.Function{f})...) {
 		eachInstr(g, func(in ssa.Instruction) {
 			if c, ok := in.(ssa.CallInstruction); ok && sameFn(staticCallee(c), unbox) {
 				call = c
@@ -64,7 +64,7 @@ func ruleP02Arms(p *Prog, r *Report) {
 	// the value unboxed is the receiver, and its result is returned
 	r.check(strip(call.Common().Args[0]) == ssa.Value(f.Params[0]), rule, "receiver", p.instrPos(call), "dispatches on the receiver entry", "Duration() does not dispatch on its own entry")
 	for _, ret := range returnsOf(f) {
-		r.check(strip(ret.Results[0]) == call.Value(), rule, "returns-dispatch", p.instrPos(ret), "returns the handler's value", "Duration() does not return the handler's value")
+		r.check(strip(retResult(ret, 0)) == call.Value(), rule, "returns-dispatch", p.instrPos(ret), "returns the handler's value", "Duration() does not return the handler's value")
 	}
 	for _, kind := range []string{"Range", "Duration", "OpenRange"} {
 		h := arms[kind]
@@ -75,7 +75,7 @@ func ruleP02Arms(p *Prog, r *Report) {
 		prm := h.Params[len(h.Params)-1]
 		for i, ret := range returnsOf(h) {
 			key := fmt.Sprintf("arm:%s#%d", kind, i)
-			v := ret.Results[0]
+			v := retResult(ret, 0)
 			switch kind {
 			case "Range":
 				n, recv, _, _ := methodCall(v)
@@ -154,7 +154,7 @@ func ruleP02Fold(p *Prog, r *Report) {
 	if len(rets) != 1 {
 		r.bad(rule, "Total:returns", p.pos(total.Pos()), "service.Total has %d return statements: an early return skips records", len(rets))
 	} else {
-		p.foldCheck(r, rule, "Total", total, rets[0].Results[0], func(arg ssa.Value) (bool, string) {
+		p.foldCheck(r, rule, "Total", total, retResult(rets[0], 0), func(arg ssa.Value) (bool, string) {
 			c, ok := isCallTo(arg, entDur, 0)
 			if !ok {
 				return false, "not e.Duration()"
@@ -179,7 +179,7 @@ func ruleP02Fold(p *Prog, r *Report) {
 		r.bad(rule, "ShouldTotalSum:returns", p.pos(should.Pos()), "ShouldTotalSum has %d return statements", len(rets))
 	} else {
 		// return NewShouldTotal(0, total.InMinutes())
-		m, ok := p.durationMinutes(rets[0].Results[0])
+		m, ok := p.durationMinutes(retResult(rets[0], 0))
 		var acc ssa.Value
 		if ok && m.C == 0 && len(m.Terms) == 1 {
 			for k, c := range m.Terms {
@@ -189,7 +189,7 @@ func ruleP02Fold(p *Prog, r *Report) {
 			}
 		}
 		if acc == nil {
-			acc = rets[0].Results[0]
+			acc = retResult(rets[0], 0)
 		}
 		p.foldCheck(r, rule, "ShouldTotalSum", should, acc, func(arg ssa.Value) (bool, string) {
 			n, recv, _, _ := methodCall(arg)
@@ -213,7 +213,7 @@ func ruleP02Diff(p *Prog, r *Report) {
 		return
 	}
 	for i, ret := range returnsOf(f) {
-		n, recv, args, _ := methodCall(ret.Results[0])
+		n, recv, args, _ := methodCall(retResult(ret, 0))
 		ok := n == "Minus" && len(args) == 1 && strip(recv) == ssa.Value(f.Params[1]) && strip(args[0]) == ssa.Value(f.Params[0])
 		r.check(ok, rule, fmt.Sprintf("return#%d", i), p.instrPos(ret), "Diff(should, actual) = actual.Minus(should)", "Diff is not actual.Minus(should)")
 	}
@@ -262,7 +262,7 @@ func ruleP02Diff(p *Prog, r *Report) {
 	plus := p.method("klog", "duration", "Plus")
 	if r.anchorFn(rule, minus, "duration.Minus") && r.anchorFn(rule, plus, "duration.Plus") {
 		for _, ret := range returnsOf(minus) {
-			n, recv, args, _ := methodCall(ret.Results[0])
+			n, recv, args, _ := methodCall(retResult(ret, 0))
 			ok := false
 			if n == "Plus" && len(args) == 1 && sameValue(recv, minus.Params[0]) || (n == "Plus" && len(args) == 1) {
 				if m, okd := p.durationMinutes(args[0]); okd && m.C == 0 && len(m.Terms) == 1 {
@@ -292,7 +292,7 @@ func ruleP02Diff(p *Prog, r *Report) {
 						// and the sum is what is returned
 						sum := resultOf(c, 0)
 						for _, ret := range returnsOf(plus) {
-							if m, okd := p.durationMinutes(ret.Results[0]); okd && sum != nil && m.C == 0 && len(m.Terms) == 1 {
+							if m, okd := p.durationMinutes(retResult(ret, 0)); okd && sum != nil && m.C == 0 && len(m.Terms) == 1 {
 								for k := range m.Terms {
 									if sameValue(m.leafV[k], sum) && m.Terms[k] == 1 {
 										okPlus = true
@@ -322,7 +322,7 @@ func ruleP02Range(p *Prog, r *Report) {
 		return
 	}
 	for _, ret := range returnsOf(dur) {
-		m, ok := p.durationMinutes(ret.Results[0])
+		m, ok := p.durationMinutes(retResult(ret, 0))
 		good := false
 		if ok && m.C == 0 && len(m.Terms) == 2 {
 			var pos, neg string
@@ -347,7 +347,7 @@ func ruleP02Range(p *Prog, r *Report) {
 	// MidnightOffset: per guard IsYesterday / IsTomorrow / neither
 	seen := map[string]bool{}
 	for i, ret := range returnsOf(off) {
-		m, ok := p.durationMinutes(ret.Results[0])
+		m, ok := p.durationMinutes(retResult(ret, 0))
 		if !ok {
 			r.bad(rule, fmt.Sprintf("offset#%d", i), p.instrPos(ret), "MidnightOffset is not built from hours and minutes")
 			continue
@@ -389,7 +389,7 @@ func ruleP02Range(p *Prog, r *Report) {
 			continue
 		}
 		for _, ret := range returnsOf(f) {
-			b, ok := strip(ret.Results[0]).(*ssa.BinOp)
+			b, ok := strip(retResult(ret, 0)).(*ssa.BinOp)
 			good := false
 			if ok {
 				_, fld := fieldLoad(b.X)
@@ -582,7 +582,7 @@ func valueRows(v ssa.Value, depth int, visiting map[ssa.Value]bool) []vrow {
 						rw.val = ret.Results[ex.Index]
 					}
 					if len(ret.Results) == 2 && ex.Index == 0 {
-						rw.errv = ret.Results[1]
+						rw.errv = retResult(ret, 1)
 					}
 					out = append(out, rw)
 				}
@@ -594,7 +594,7 @@ func valueRows(v ssa.Value, depth int, visiting map[ssa.Value]bool) []vrow {
 		if g := staticCallee(c); g != nil && g.Parent() != nil && g.Signature.Results().Len() == 1 {
 			var out []vrow
 			for _, ret := range returnsOf(g) {
-				out = append(out, vrow{guards: guardsOf(ret.Block()), at: ret, call: c, val: ret.Results[0]})
+				out = append(out, vrow{guards: guardsOf(ret.Block()), at: ret, call: c, val: retResult(ret, 0)})
 			}
 			return out
 		}
